@@ -305,8 +305,8 @@ def check_C18(pid, tier, seed, chk):
         print("VIOLATION property=%s replay=%s no-failing-input-found" % (pid, path))
         return 1
     # short histories, every user call of every operation is a crash point
-    n = 60 if tier == "quick" else 1500
-    nops = 14 if tier == "quick" else 22
+    n = 240 if tier == "quick" else 1500
+    nops = 18 if tier == "quick" else 22
     cases = []
     nid = 1
     for comp in ("rawlru", "slru", "twoq", "arc", "wtinylfu"):
